@@ -258,6 +258,16 @@ class Monitor:
         for slot, val in got.items():
             if isinstance(val, str):
                 self.seen.setdefault((s, slot, val), L)
+            # an event value that is handed over too early is reported once (not_yet_due) and then counts as
+            # delivered, so that the same defect is not reported again as "lost" at the step where it was due
+            c = info.get(slot)
+            if c is not None and not c.persistent:
+                for h in c.hist:
+                    try:
+                        if h[2] == val and h[0] > L and not h[3]:
+                            h[3] = "early"
+                    except Exception:  # noqa
+                        pass
         for slot in sorted(set(exp) | set(got)):
             c = info.get(slot)
             e = exp.get(slot)
